@@ -99,7 +99,7 @@ oer_open_type_get(const asn_codec_ctx_t *opt_codec_ctx,
 
     dr = td->op->oer_decoder(opt_codec_ctx, td, constraints, struct_ptr,
                          (const uint8_t *)bufptr + len_len, container_len);
-    if(dr.code == RC_OK) {
+    if(dr.code == RC_OK && dr.consumed == container_len) {
         return len_len + container_len;
     } else {
         /* Even if RC_WMORE, we can't get more data into a closed container. */
